@@ -215,6 +215,14 @@ def readback_specs():
                 ("(%s)" % kw, L(S(kw))), ("(%s a b)" % kw, L(S(kw), a, b)), ("(%s . a)" % kw, L(S(kw), tail=a)), ("#(%s a)" % kw, V(S(kw), a)),
                 ("(a %s b)" % kw, L(a, S(kw), b)), ("(%s (%s a))" % (kw, kw), L(S(kw), L(S(kw), a))), ("(%s #(a))" % kw, L(S(kw), V(a))),
                 ("(%s (a b))" % kw, L(S(kw), L(a, b)))]
+    # plain symbols over the whole identifier alphabet of R7RS 7.1.1 (ordinary and peculiar, every kind of subsequent): printed bare,
+    # they must read back as that symbol — alone and as a vector element
+    from . import tokenclass
+    idents = [t for t in tokenclass.samples(False) if (tokenclass.classify(t) or ("",))[0] == "Identifier" and not tokenclass.unsupported(t)]
+    for t in idents:
+        out.append(("symbol %s" % t, S(t)))
+    for t in idents[::4]:
+        out.append(("#(%s 1)" % t, V(S(t), ("int", 1))))
     return out
 
 
